@@ -573,6 +573,68 @@ fn one_case(ctx: &Ctx, case: u64, l: &mut Local) {
             }
         }
     }
+    // ---- JSON only: a member given twice, one copy intact and one tampered (a reader that checks the
+    // signature over one copy and takes the claims from the other must not exist): the outcome is
+    // an error, or exactly the claims of the intact token
+    if fmt == Fmt::Json {
+        let control_claims = control.out.clone().ok();
+        let evil = tamper::reencode_segment(&t.parts.jwt, 1, |v| { v["admin#dup;"] = json!(true); }).and_then(|x| tamper::segments(&x));
+        if let (Some(evil), Some(good_claims)) = (evil, control_claims) {
+            let member = |k: &str, v: &Value| format!("{}:{}", json!(k), v);
+            let rest = |skip: &str| -> Vec<String> {
+                let mut out = vec![];
+                for (k, v) in [("protected", json!(segs[0])), ("payload", json!(segs[1])), ("signature", json!(segs[2])), ("disclosures", json!(t.parts.disclosures))] {
+                    if k != skip {
+                        out.push(member(k, &v));
+                    }
+                }
+                if let Some(k) = &t.parts.kb {
+                    out.push(member("kb_jwt", &json!(k)));
+                }
+                out
+            };
+            let mut docs: Vec<(String, String)> = vec![];
+            for (name, first, second) in [("payload evil-first", &evil[1], &segs[1]), ("payload evil-last", &segs[1], &evil[1])] {
+                let mut m = rest("payload");
+                m.insert(0, member("payload", &json!(first)));
+                m.push(member("payload", &json!(second)));
+                docs.push((name.to_string(), format!("{{{}}}", m.join(","))));
+            }
+            for (name, first, second) in [("signature empty-first", "", segs[2].as_str()), ("signature empty-last", segs[2].as_str(), "")] {
+                let mut m = rest("signature");
+                m.insert(0, member("signature", &json!(first)));
+                m.push(member("signature", &json!(second)));
+                docs.push((name.to_string(), format!("{{{}}}", m.join(","))));
+            }
+            {
+                let forged = crate::model::b64e(json!(["s", "admin#dup2;", true]).to_string().as_bytes());
+                let mut with = t.parts.disclosures.clone();
+                with.push(forged);
+                let mut m = rest("disclosures");
+                m.insert(0, member("disclosures", &json!(with)));
+                m.push(member("disclosures", &json!(t.parts.disclosures)));
+                docs.push(("disclosures twice".to_string(), format!("{{{}}}", m.join(","))));
+            }
+            for (name, doc) in docs {
+                let v = api::verify(&doc, &fixed, t.kb.as_ref().map(|(a, n)| (a.as_str(), n.as_str())), fmt);
+                j.l.evals += 1;
+                j.l.count("fault.structural.kind.json-member-twice");
+                j.l.distinct(crate::rng::mix(case ^ gen::hash_str(&name)));
+                match &v.out {
+                    Outcome::Err(_) => j.l.count("fault.structural.rejected"),
+                    Outcome::Ok(c) if *c == good_claims => j.l.count("fault.structural.member-twice.intact-copy-used"),
+                    Outcome::Ok(c) => j.l.violate(Violation {
+                        subcheck: "tampered-token-accepted".into(),
+                        class: format!("JSON member given twice: {name} ({})", alg.name()),
+                        observed: "Ok with claims other than the intact token's".into(),
+                        case,
+                        detail: json!({"document": doc, "claims": c}),
+                    }),
+                    p @ Outcome::Panic(..) => j.l.violate(Violation { subcheck: "panic".into(), class: format!("JSON member given twice: {name}"), observed: p.panic_signature().unwrap(), case, detail: json!({"document": doc}) }),
+                }
+            }
+        }
+    }
     // ---- JSON only: the flattened members are NOT intact, but an unknown member carries the intact
     // compact JWT (an "envelope" reader that prefers such a member would accept)
     if fmt == Fmt::Json {
